@@ -399,11 +399,6 @@ theorem glwe_rotate_assign_ok (a : Arena) (h : tbGlweRotate n ≤ a.available) :
 
 example : (run (treeGlweRotateAssign 32) ⟨4096, tbGlweRotate 32⟩).isOk = true := by decide
 
-/-- one line for every operation whose tree satisfies `fits ∧ aligned ∧ reqA ≤ tmp_bytes` -/
-theorem ok_of_facts {t : AllocTree} {tb : Nat} (h : fits t = true ∧ aligned t = true ∧ reqA t ≤ tb) (a : Arena)
-    (ha : tb ≤ a.available) : (run t a).isOk = true :=
-  run_ok_of_aligned t h.1 h.2.1 a (Nat.le_trans h.2.2 ha)
-
 /-- `gglwe_product_dft` (the `dsize = 1` and the `dsize > 1` bivariate paths) -/
 theorem gglwe_product_ok (aSize : Nat) (k : K) (hn : n % 8 = 0) (a : Arena)
     (h : tbGglweProduct be n aSize k ≤ a.available) :
